@@ -186,7 +186,7 @@ def _make_scenario(sc):
 ROLE_EVENT = {
     'SupPut': ('s', 'QPut'), 'SupEndStart': ('s', None), 'SupTakeSpare': ('s', 'QGet'), 'SupApply': ('s', 'QPut'),
     'SupMarker': ('s', 'QPut'), 'N1': ('c', 'Full'), 'N2': ('c', 'QGet'), 'N4': ('c', 'Full'), 'PutBack': ('c', 'QPut'),
-    'N5': ('c', 'QGet'), 'N6': ('c', 'QPut'), 'N7': ('c', 'Full'), 'Claim': ('c', 'QGet'),
+    'N5': ('c', 'QGet'), 'N6': ('c', 'QPut'), 'N7': ('c', 'Full'), 'Claim': ('c', 'QPut'),
     'Renew1': ('r', 'Full'), 'Renew2': ('r', 'QGet'), 'Renew3': ('r', 'RenewDone'),
 }
 
@@ -201,7 +201,7 @@ def behaviour_to_item(beh, consts):
             kind, ev = ROLE_EVENT[name]
             role = 'r' if kind == 'r' else f'{kind}{args[0]}'
             if name == 'Claim' and st['claim'] == prev['claim']:
-                ev = None       # lost the claim: get(timeout) ends with Empty, no event
+                ev = None       # lost the claim: put(block=False) raises Full, no event
             script.append({'role': role, 'ev': ev, 'act': act})
         prev = st
     sc = {'m': consts['M'], 'nc': consts['NC'], 'k': consts['K'], 'rounds': consts['Rounds'], 'qbound': consts['QBound']}
